@@ -4,19 +4,27 @@ import vlib
 
 
 def parse_race_reports(pattern):
-    """Go race detector reports -> list of (site1, site2, kinds): innermost repository frame of each access."""
+    """Go race detector reports -> list of (writers, detail).
+
+    A report is identified by its WRITE access(es): the innermost repository frame of the write and the repository frame that
+    called it ("f <- caller").  The reading side varies from run to run with scheduling and inlining (any reader of the same
+    object can be the one the detector happens to catch), the writing call site is what defines the defect."""
     reps = []
     for fn in glob.glob(pattern):
         txt = open(fn, errors="replace").read()
         for block in txt.split("WARNING: DATA RACE")[1:]:
-            sites, kinds = [], []
+            writers, sites, kinds = set(), [], []
             for m in re.finditer(r"^(Read|Write|Previous read|Previous write|Atomic [a-z ]+) at .*?\n((?:  .*\n)+)", block, re.M):
                 kinds.append(m.group(1))
                 frames = re.findall(r"^  (\S+)\(\)\n\s+(\S+?):\d+", m.group(2), re.M)
-                site = next((f for f, p in frames if "go-dicom-codecs" in f), frames[0][0] if frames else "?")
-                sites.append(site.split("go-dicom-codecs/")[-1])
+                repo = [f.split("go-dicom-codecs/")[-1] for f, p in frames if "go-dicom-codecs" in f]
+                site = repo[0] if repo else (frames[0][0] if frames else "?")
+                sites.append(site)
+                if "rite" in m.group(1):
+                    writers.add(" <- ".join(repo[:2]) if repo else site)
             if len(sites) >= 2:
-                reps.append((sites[0], sites[1], " / ".join(kinds[:2])))
+                reps.append((" & ".join(sorted(writers)) or "no write access identified",
+                             "%s <-> %s (%s)" % (sites[0], sites[1], " / ".join(kinds[:2]))))
     return reps
 
 
@@ -62,13 +70,12 @@ def run(ctx):
     seen = set()
     nsc = int(stats["scenarios"])
     with open(trace, "a") as f:
-        for i, (s1, s2, kinds) in enumerate(races):
-            key = tuple(sorted((s1, s2)))
-            if key in seen:
+        for i, (writers, detail) in enumerate(races):
+            if writers in seen:
                 continue
-            seen.add(key)
+            seen.add(writers)
             f.write(json.dumps({"scn": nsc + 1 + i, "k": 0, "ev": "reset"}) + "\n")
-            f.write(json.dumps({"scn": nsc + 1 + i, "k": 1, "ev": "race", "site1": key[0], "site2": key[1], "kinds": kinds}) + "\n")
+            f.write(json.dumps({"scn": nsc + 1 + i, "k": 1, "ev": "race", "writers": writers, "detail": detail}) + "\n")
     shards = vlib.shard_trace(trace, wd, vlib.NCPU)
     val = vlib.validate(wd, "ConcTrace", shards, timeout=1800)
     val["accepted_scenarios"] = val["accepted"]
